@@ -1019,7 +1019,55 @@ def base_archive(p):
         rng = random.Random(p["seed"])
         d = arch.pattern_bytes(rng, 400, "text")
         return folder_crc_archive("f.txt", d, p.get("chain", "copy")), [("f.txt", d)]
+    if kind == "multi-folder":
+        return multi_folder_archive(p)
     raise ValueError(kind)
+
+
+def multi_folder_sessions(seed):
+    rng = random.Random(seed)
+    return [[("s1/a.txt", arch.pattern_bytes(rng, 70, "text")), ("s1/b.bin", arch.pattern_bytes(rng, 90, "random"))],
+            [("s2/c.txt", arch.pattern_bytes(rng, 60, "text")), ("s2/d.bin", arch.pattern_bytes(rng, 80, "random"))],
+            [("s3/e.dat", arch.pattern_bytes(rng, 50, "period")), ("s3/f.bin", arch.pattern_bytes(rng, 40, "random"))]]
+
+
+def multi_folder_archive(p):
+    """an archive of 2-3 folders, one per writing session.  how == "cli": `py7zr c` then `py7zr a` (real
+    processes, the command's default filter chain); how == "lib": the same sessions through
+    SevenZipFile(..., "w") / (..., "a") with the chain asked for"""
+    sessions = multi_folder_sessions(p["seed"])[: p.get("folders", 3)]
+    members = [m for ses in sessions for m in ses]
+    if p.get("how") == "cli":
+        tmp = tempfile.mkdtemp(prefix="c19f_")
+        try:
+            for ses in sessions:
+                for n, d in ses:
+                    os.makedirs(os.path.dirname(os.path.join(tmp, n)), exist_ok=True)
+                    open(os.path.join(tmp, n), "wb").write(d)
+            for i in range(len(sessions)):
+                rc, so, se = run_cli((["c"] if i == 0 else ["a"]) + ["arc.7z", "s%d" % (i + 1)], tmp)
+                if rc != 0:
+                    raise RuntimeError("building the multi-folder archive: %s exits %s: %s" % ("c" if i == 0 else "a", rc, se[-300:]))
+            data = open(os.path.join(tmp, "arc.7z"), "rb").read()
+        finally:
+            shutil.rmtree(tmp, ignore_errors=True)
+    else:
+        data = arch.make_archive(sessions[0], chain=p["chain"], sessions=[(ms, p["chain"]) for ms in sessions[1:]])
+    return data, members
+
+
+def folder_ranges(data):
+    """byte ranges of each folder's packed streams in the archive file"""
+    z = py7zr.SevenZipFile(io.BytesIO(data))
+    ms = z.header.main_streams
+    pos = ms.packinfo.packpositions
+    base = 32 + ms.packinfo.packpos
+    out, k = [], 0
+    for f in ms.unpackinfo.folders:
+        n = len(f.packed_indices) if getattr(f, "packed_indices", None) else 1
+        out.append([base + pos[k], base + pos[k + n]])
+        k += n
+    return out
 
 
 def variant_bytes(data, v):
@@ -1078,13 +1126,15 @@ def sc_damage(p):
                 continue
             mk = None
             if rt == 0:
-                via = "folder-crc" if p["archive"] == "folder-crc" else p.get("chain", "?")
+                via = "folder-crc" if p["archive"] == "folder-crc" else (
+                    "multi-folder-%s" % p.get("chain", "cli") if p["archive"] == "multi-folder" else p.get("chain", "?"))
                 mk = {"kind": "t-exit0-damaged", "via": via}
                 what = "t exits 0 on a damaged archive (%s, %s): x exits %s (%s), members reproduced: %s" % (
-                    _arcname(p), _vstr(v), rx, last_x, same)
+                    _arcname(p), _vstr(v, p), rx, last_x, same)
             elif rx == 0:
-                mk = {"kind": "x-exit0-damaged", "via": p.get("chain", p["archive"])}
-                what = "x exits 0 on a damaged archive (%s, %s) but the members differ; t exits %s (%s)" % (_arcname(p), _vstr(v), rt, last_t)
+                mk = {"kind": "x-exit0-damaged", "via": ("multi-folder-%s" % p.get("chain", "cli")) if p["archive"] == "multi-folder" else
+                      p.get("chain", p["archive"])}
+                what = "x exits 0 on a damaged archive (%s, %s) but the members differ; t exits %s (%s)" % (_arcname(p), _vstr(v, p), rt, last_t)
             if mk and json.dumps(mk, sort_keys=True) not in seen:
                 seen.add(json.dumps(mk, sort_keys=True))
                 f = finding(what, mk, variant=v)
@@ -1099,11 +1149,20 @@ def sc_damage(p):
 def _arcname(p):
     if p["archive"] == "folder-crc":
         return "one file, CRC stored at folder level"
+    if p["archive"] == "multi-folder":
+        return "%d folders, %s" % (len(p.get("folder_ranges", [])), "made by `c` then `a`" if p.get("how") == "cli" else
+                                   "sessions w/a with chain %s" % p.get("chain"))
     return "chain %s" % p.get("chain")
 
 
-def _vstr(v):
-    return "bit %d of byte %d flipped" % (v[2], v[1]) if v[0] == "flip" else "truncated to %d bytes" % v[1]
+def _vstr(v, p=None):
+    if v[0] != "flip":
+        return "truncated to %d bytes" % v[1]
+    where = ""
+    for i, (lo, hi) in enumerate((p or {}).get("folder_ranges", [])):
+        if lo <= v[1] < hi:
+            where = " (packed data of folder %d)" % i
+    return "bit %d of byte %d flipped%s" % (v[2], v[1], where)
 
 
 def damage_variants(data, rng, tier, hdr_start, step=1):
@@ -1294,6 +1353,23 @@ def explore(ctx, rep, rng, tier):
         hdr_start = 32 + struct.unpack("<Q", data[12:20])[0]
         step = 5 if tier == "quick" else 1
         p["variants"] = [["same"]] + [["flip", q, rng.randrange(8)] for q in range(32, hdr_start, step * 8)] + [["trunc", hdr_start - 3]]
+        jobs.append(("damage", p))
+    # multi-folder archives (one folder per session): damage inside each folder's packed bytes
+    for mp in ({"how": "cli"}, {"how": "lib", "chain": "copy"}, {"how": "lib", "chain": "lzma2"}):
+        p = dict({"archive": "multi-folder", "folders": 3, "seed": ctx["seed"]}, **mp)
+        data, ms = base_archive(p)
+        p["data_hex"], p["members_hex"] = data.hex(), [[n, d.hex()] for n, d in ms]
+        p["folder_ranges"] = folder_ranges(data)
+        if len(p["folder_ranges"]) < 2:
+            raise RuntimeError("multi-folder archive has %d folder(s)" % len(p["folder_ranges"]))
+        vs = [["same"]]
+        for lo, hi in p["folder_ranges"]:
+            if tier == "quick":
+                qs = sorted({lo, (lo + hi) // 2, hi - 1, rng.randrange(lo, hi)})
+            else:
+                qs = range(lo, hi, 1 if mp.get("chain") == "copy" else 2)
+            vs += [["flip", q, rng.randrange(8)] for q in qs]
+        p["variants"] = vs
         jobs.append(("damage", p))
     fixtures = ["lz4.7z", "lzma_bcj2_1.7z", "crc_corrupted.7z", "encrypted_3.7z"]
     if tier != "quick":
